@@ -56,7 +56,7 @@ struct KModel {
             return !present;
         case ERASE_ACC:   // erase through an accessor: true = this call removed exactly that element; false = somebody else already had
             if (o.ok) { if (!present || tag != o.tag) return false; present = false; return true; }
-            return true;
+            return !present || tag != o.tag;     // false is truthful only if that element is no longer in the map
         default: return false;
         }
     }
@@ -99,15 +99,21 @@ SIM_SCENARIO(scen_c10, "c10", "C10", 3000000, 8000) {
     // theme "erase in a chain" (1 run in 5): every key is present at the start and shares its bucket chain with the others
     // (constant or low-bit-colliding hash), the programs are mostly erases: removal of non-head nodes, several threads
     // unlinking neighbours / the same node, bucket-lock upgrades that are contended
-    bool erase_theme = sim::draw(5, "erase_theme") == 0;
-    g_hash_kind = erase_theme ? 1 + (int)sim::draw(2, "hash") : (int)sim::draw(4, "hash");
-    g_shift = erase_theme ? (int)sim::draw_range(6, 10, "shift") : (int)sim::draw_range(1, 10, "shift");
-    int nkeys = erase_theme ? (int)sim::draw_range(3, 6, "nkeys") : (int)sim::draw_range(1, 6, "nkeys");
+    int theme = (int)sim::draw(6, "theme");           // 0: erase in a chain, 1: erase while the table grows, else: uniform mix
+    bool erase_theme = theme == 0;
+    // theme "erase while the table grows" (1 run in 6): tiny table, every key present at the start, one thread bulk-inserts
+    // fresh keys (the mask grows several times and lazy rehashing moves the keys to child buckets as soon as somebody
+    // touches those), the others erase by accessor / by key and look keys up
+    bool grow_theme = theme == 1;
+    g_hash_kind = erase_theme ? 1 + (int)sim::draw(2, "hash") : grow_theme ? 2 * (int)sim::draw(2, "hash") : (int)sim::draw(4, "hash");
+    g_shift = erase_theme ? (int)sim::draw_range(6, 10, "shift") : grow_theme ? (int)sim::draw_range(1, 3, "shift") : (int)sim::draw_range(1, 10, "shift");
+    int nkeys = erase_theme ? (int)sim::draw_range(3, 6, "nkeys") : grow_theme ? (int)sim::draw_range(4, 6, "nkeys") : (int)sim::draw_range(1, 6, "nkeys");
     static const int prefills[] = {0, 0, 1, 2, 3, 6, 7, 14, 15, 30, 31, 62, 126, 250, 254, 255, 256, 510};
     int prefill = sim::draw_of(prefills, "prefill");
     int nbuckets = (int)sim::draw(3, "nbuckets");
+    if (grow_theme) { prefill = 0; if (nbuckets == 0) nbuckets = 1; }
     static const char* const hn[] = {"identity", "constant", "lowbits-collide", "mix"};
-    d.add(hx::fmt("concurrent_hash_map hash=%s shift=%d keys=%d prefill=%d initial_buckets=%d%s", hn[g_hash_kind], g_shift, nkeys, prefill, nbuckets, erase_theme ? " theme=erase-in-chain (all keys present at start)" : ""));
+    d.add(hx::fmt("concurrent_hash_map hash=%s shift=%d keys=%d prefill=%d initial_buckets=%d%s", hn[g_hash_kind], g_shift, nkeys, prefill, nbuckets, erase_theme ? " theme=erase-in-chain (all keys present at start)" : grow_theme ? " theme=erase-while-growing (all keys present at start)" : ""));
     std::vector<std::vector<Plan>> plan(nthreads);
     int total = 0, bulk_budget = 2, bulk_next = 5000;
     for (int t = 0; t < nthreads; ++t) {
@@ -116,6 +122,7 @@ SIM_SCENARIO(scen_c10, "c10", "C10", 3000000, 8000) {
         for (int i = 0; i < nops && total < 22; ++i, ++total) {
             OK k = (OK)sim::draw(NOPS, "op");
             if (erase_theme) { static const OK eo[] = {ERASE, ERASE, ERASE, ERASE, FIND_CACC, FIND_CACC, ERASE_ACC, INS, COUNT, ERASE}; k = eo[sim::draw(10, "eop")]; }
+            if (grow_theme) { static const OK go[] = {ERASE_ACC, ERASE_ACC, ERASE_ACC, ERASE, FIND_CACC, FIND_CACC, COUNT, COUNT, INS, ERASE_ACC}; k = (t == 0 && i == 0) ? BULK : go[sim::draw(10, "gop")]; }
             int key = (int)sim::draw((uint64_t)nkeys, "key");
             int hold = (int)sim::draw(4, "hold");
             // bulk insert of fresh keys (outside the checked histories): lets the table grow by one or two steps
@@ -134,7 +141,7 @@ SIM_SCENARIO(scen_c10, "c10", "C10", 3000000, 8000) {
     for (int i = 0; i < prefill; ++i) m->insert(std::make_pair(1000 + i, Val(500000 + i)));
 
     std::vector<std::vector<Ev>> hist(nkeys);
-    if (erase_theme) for (int k = 0; k < nkeys; ++k) {      // sequential inserts, part of each key's history
+    if (erase_theme || grow_theme) for (int k = 0; k < nkeys; ++k) {      // sequential inserts, part of each key's history
         Ev e; e.op.k = INS; e.op.tag = 900 + (uint64_t)k; e.inv = sim::step(); sim::upoint();
         e.op.ok = m->insert(std::make_pair(k, Val(e.op.tag)));
         sim::upoint(); e.res = sim::step(); hist[k].push_back(e);
@@ -212,6 +219,10 @@ SIM_SCENARIO(scen_c10, "c10", "C10", 3000000, 8000) {
                 hist[p.key].push_back(e);
             }
         });
+    }
+    {   // the table's mask is a version-like word: operations read it first and validate it later (stale-read amplifier)
+        struct PeekMap : Map { const void* mask_word() const { return &this->my_mask; } };
+        sim::stale_watch(static_cast<const PeekMap*>(m)->mask_word(), sizeof(size_t));
     }
     hx::run_fibers(fns);
     // quiescent part: optional rehash, final reads (part of each key's history), size and traversal
